@@ -625,13 +625,14 @@ def explore_config(run, cfg, env, limits=None, findings=(), width=80, collect_fu
                     # parsing): its failure on this path's witness is a violation candidate
                     res["violations"].append({"label": st[len("require:"):], "inputs": values,
                                               "path": res["paths"]})
-                elif st.startswith("require:") and not any(
-                        v["label"] == st[len("require:"):] for v in res["violations"]):
+                elif st.startswith("require:"):
                     # the unpatched library fails an obligation on this path's own witness although
                     # the symbolic run passed it (e.g. an error path whose message formatting only
-                    # fails on a real number): a violation observed on the real code
-                    res["violations"].append({"label": st[len("require:"):], "inputs": values,
-                                              "path": res["paths"], "concrete_only": True})
+                    # fails on a real number): a violation observed on the real code (one report
+                    # per label and configuration)
+                    if not any(v["label"] == st[len("require:"):] for v in res["violations"]):
+                        res["violations"].append({"label": st[len("require:"):], "inputs": values,
+                                                  "path": res["paths"], "concrete_only": True})
                 elif st != "ok":
                     res["divergences"].append({"inputs": jsonable(values), "kind": st,
                                                "detail": detail})
